@@ -1,6 +1,7 @@
 import TinsModel.Capture.LemmasHandlers
 import TinsModel.Capture.LemmasSniffLoop
 import TinsModel.Capture.LemmasPcap
+import TinsModel.Capture.LemmasSession
 /- Property C17 — capture files round-trip and the capture loop survives any frame.
    Theorems only; helper lemmas live in TinsModel/Capture/Lemmas*.lean.
 
@@ -308,6 +309,134 @@ example : (sniffAll .loop (fun _ => true)
     (handlerRaw (fun _ _ => (POut.throw (.other "option_not_found") : POut Nat))) 3
     ⟨[⟨⟨1, 1⟩, 1, 1, [0x45]⟩], false⟩).2.1 = .escape (.other "option_not_found") := by decide
 
+/-! ## the sniffer as a state machine: any sequence of public calls on one live sniffer -/
+
+section Session
+variable {P : Type} (parse : String → Bytes → POut P)
+
+/-- **session_filtermap** (`loop_filtermap` in the general form).  Take a `FileSniffer` on a capture with frames
+    `fs` of a link type `next_packet` has a handler for, and ANY sequence of public calls on it — `next_packet`,
+    `sniff_loop(f, max)`, iteration, `set_extract_raw_pdus`, `set_filter` (valid / empty / one that does not compile),
+    `set_pcap_sniffing_method`, `stop_sniff`, also from inside the functors, move construction / move assignment
+    mid-capture, `link_type()`.  Then
+    * the frames `next_packet` moved past, in order, followed by the frames still in the sniffer, are exactly `fs`:
+      no frame is lost, duplicated or reordered, whichever API consumed it;
+    * the packets handed to the user over the whole session, in order, are the `filterMap` over the consumed frames
+      of "accepted by the filter and parses under the raw mode **in force when `next_packet` reached that frame**"
+      (the ghost log records precisely that mode and filter);
+    * no call ends with an exception out of a handler or with a read outside a frame.
+    Hypothesis on the dissectors as in `loop_filtermap`: on these frames they throw nothing but `malformed_packet`. -/
+theorem session_filtermap (s0 : Sniffer) (hdisp : dispatches s0.handle.dlt = true)
+    (hok : ∀ f ∈ s0.handle.frames, FrameOk parse s0.handle.dlt f) (calls : List (Call P)) :
+    ((Traced.run parse ⟨s0, []⟩ calls).2.log.map (·.1)) ++ (Traced.run parse ⟨s0, []⟩ calls).2.s.handle.frames
+        = s0.handle.frames ∧
+    delivered (Traced.run parse ⟨s0, []⟩ calls).1
+        = (Traced.run parse ⟨s0, []⟩ calls).2.log.filterMap (deliver parse s0.handle.dlt) ∧
+    (∀ r ∈ (Traced.run parse ⟨s0, []⟩ calls).1, RetOk r) := by
+  obtain ⟨chunk, a, hr⟩ := run_advance parse s0.handle.dlt hdisp calls ⟨s0, []⟩ ⟨rfl, hok⟩
+  have hlog : (Traced.run parse ⟨s0, []⟩ calls).2.log = chunk := by simpa using a.log
+  refine ⟨?_, ?_, hr⟩
+  · rw [hlog]; exact a.frames.symm
+  · rw [hlog]; exact a.out
+
+/-- **session_end_sticky.**  Once `next_packet` has handed back no packet without a pending `stop_sniff` — the end
+    of the file was reached — nothing is ever delivered again, whatever is called afterwards: every later
+    `next_packet` hands back no packet, every later loop ends at once. -/
+theorem session_end_sticky (dlt : Nat) (hdisp : dispatches dlt = true) (t : Traced) (hinv : Inv parse dlt t)
+    (hbrk : t.s.handle.brk = false) (hnull : (t.nextPacket parse).1 = .null) (calls : List (Call P)) :
+    delivered (Traced.run parse (t.nextPacket parse).2 calls).1 = [] ∧
+    ∀ o, Ret.packet o ∈ (Traced.run parse (t.nextPacket parse).2 calls).1 → o = .null := by
+  obtain ⟨_, _, _, _, _, _, _, _, _, _, hend⟩ := nextPacket_step parse dlt hdisp t hinv
+  have hfr := hend hbrk hnull
+  obtain ⟨chunk, a, hr⟩ := run_advance parse dlt hdisp calls _ (nextPacket_inv parse dlt hdisp t hinv)
+  have hchunk : chunk = [] := by
+    have := a.frames
+    rw [hfr] at this
+    have h2 := congrArg List.length this
+    simp only [List.length_nil, List.length_append, List.length_map] at h2
+    exact List.eq_nil_of_length_eq_zero (by omega)
+  have hdel : delivered (Traced.run parse (t.nextPacket parse).2 calls).1 = [] := by
+    rw [a.out, hchunk]; rfl
+  refine ⟨hdel, ?_⟩
+  intro o ho
+  have hok := hr _ ho
+  have hp : (Ret.packet o : Ret P).pkts = [] := by
+    simp only [delivered, List.flatMap_eq_nil_iff] at hdel
+    exact hdel _ ho
+  cases o with
+  | pkt p ts => simp [Ret.pkts] at hp
+  | null => rfl
+  | escape e => exact absurd rfl (hok.1 e)
+  | fault i n => exact absurd rfl (hok.2 i n)
+
+/-- **stop_sniff_interrupts_once.**  After `stop_sniff()` the next `next_packet` — for every sniffing method — reads
+    nothing and hands back no packet; the flag is cleared, the read position, filter, raw mode are untouched. -/
+theorem stop_sniff_interrupts_once (dlt : Nat) (hdisp : dispatches dlt = true) (t : Traced) (hinv : Inv parse dlt t) :
+    let t1 : Traced := { t with s := (t.s.cfg .stopSniff).2 }
+    (t1.nextPacket parse).1 = .null ∧ (t1.nextPacket parse).2.s.handle.frames = t.s.handle.frames ∧
+    (t1.nextPacket parse).2.s.handle.brk = false ∧ (t1.nextPacket parse).2.s.handle.filter = t.s.handle.filter ∧
+    (t1.nextPacket parse).2.s.extractRaw = t.s.extractRaw := by
+  obtain ⟨handler, hsel, hrun⟩ := selected parse dlt hdisp t.s.extractRaw
+  have hd := hinv.hdlt
+  intro t1
+  have hnp : t1.s.nextPacket parse = (.null, { t1.s with handle := { t1.s.handle with brk := false } }) := by
+    simp only [Sniffer.nextPacket, t1, Sniffer.cfg, hd, hsel, hrun]
+    rw [npLoop_brk t.s.method handler _ _ rfl]
+  simp only [Traced.nextPacket, hnp]
+  simp [t1, Sniffer.cfg]
+
+/-- **sniff_loop_only_functor_exceptions.**  Nothing but the user functor's own exceptions — those `sniff_loop` has
+    no catch clause for — comes out of `sniff_loop` or a range-for. -/
+theorem sniff_loop_only_functor_exceptions (dlt : Nat) (hdisp : dispatches dlt = true) (t : Traced)
+    (hinv : Inv parse dlt t) (catches : List String) (cb : Functor P) (mx : Nat) :
+    LoopEndOk catches cb (Traced.loop parse catches cb (t.s.handle.frames.length + 1) t mx []).1 := by
+  obtain ⟨_, _, _, _, h⟩ := loop_advance parse dlt hdisp catches cb _ t mx [] hinv (Nat.le_refl _)
+  exact h
+
+/-- **sniffer_move.**  Move construction and move assignment hand the complete state — read position, installed
+    filter, pending `stop_sniff`, raw mode, sniffing method — to the target; the object left behind by a move
+    assignment holds the target's previous handle (and closes it when destroyed). -/
+theorem sniffer_move (dst s : Sniffer) :
+    (Sniffer.moveConstruct s).1 = s ∧ (Sniffer.moveAssign dst s).1 = s ∧ (Sniffer.moveAssign dst s).2 = dst :=
+  ⟨moveConstruct_fst s, moveAssign_fst dst s, moveAssign_snd dst s⟩
+
+end Session
+
+/-! ### non-vacuity: `sniff_loop` stopped by `max_packets`, a raw-mode switch, `next_packet`, `stop_sniff`, a move,
+    then iteration — on the demo capture -/
+
+def demoSniffer : Sniffer :=
+  { handle := { dlt := 12, frames := demoFrames, err := false, filter := fun _ => true, brk := false },
+    extractRaw := false, method := .dispatch }
+
+def demoCalls : List (Call Nat) :=
+  [.sniffLoop (fun _ _ => ([], .continue_)) 1,           -- one packet, stopped by max_packets
+   .cfg (.setRaw true),                                  -- from here on frames come back as RawPDU
+   .nextPacket,                                          -- the empty frame, now a (zero-length) packet
+   .cfg .stopSniff, .nextPacket,                         -- interrupted once: nothing read
+   .moveConstruct,
+   .cfg (.setFilter (some (fun f => decide (f.caplen ≠ 1)))),
+   .rangeFor (fun _ _ => ([], .continue_)),              -- the rest, minus the one-byte frame
+   .nextPacket]                                          -- the end is sticky
+
+/-- toy dissector for the raw mode as well: `RawPDU` accepts everything -/
+def demoParse2 (cls : String) (b : Bytes) : POut Nat :=
+  if cls = "RawPDU" then .ok (1000 + b.length) else demoParse cls b
+
+/-- `session_end_sticky` / `stop_sniff_interrupts_once` on the demo capture: after `stop_sniff` one `next_packet`
+    reads nothing; after the end of the file nothing comes any more -/
+example : ((Traced.nextPacket demoParse2 ⟨(demoSniffer.cfg .stopSniff).2, []⟩).1 matches .null) = true ∧
+    (Traced.nextPacket demoParse2 ⟨(demoSniffer.cfg .stopSniff).2, []⟩).2.s.handle.frames.length = 5 := by decide
+example : delivered (Traced.run demoParse2 ⟨{ demoSniffer with handle := { demoSniffer.handle with frames := [] } }, []⟩
+    [.nextPacket, .sniffLoop (fun _ _ => ([], .continue_)) 0, .rangeFor (fun _ _ => ([], .stop))]).1 = [] := by decide
+example : dispatches demoSniffer.handle.dlt = true := by decide
+example : ∀ f ∈ demoSniffer.handle.frames, f.data.length = f.caplen ∧
+    ∀ raw, throwsOther demoParse2 (modeKind raw 12) f = false := by decide
+example : delivered (Traced.run demoParse2 ⟨demoSniffer, []⟩ demoCalls).1 =
+    [(4, ⟨10000001⟩), (1000, ⟨11000002⟩), (1003, ⟨13000004⟩), (1005, ⟨14000005⟩)] := by decide
+example : (Traced.run demoParse2 ⟨demoSniffer, []⟩ demoCalls).2.log.map (fun e => (e.1.caplen, e.2.1)) =
+    [(4, false), (0, true), (1, true), (3, true), (5, true)] := by decide
+
 /-! ## the writer and the file -/
 
 /-- **writer_reader_roundtrip.**  A file written with `PacketWriter` (any link type of the writer's API, any packets
@@ -343,6 +472,73 @@ theorem writer_reader_roundtrip (dlt : Nat) (hdlt : ∃ e ∈ dataLinkTypes ++ w
 example : openFile (writtenFile 1 [⟨⟨1700000000000001⟩, [1, 2, 3], 3⟩, ⟨⟨5⟩, [], 0⟩]) =
     some { dlt := 1, snaplen := writerSnaplen,
            frames := [⟨⟨1700000000, 1⟩, 3, 3, [1, 2, 3]⟩, ⟨⟨0, 5⟩, 0, 0, []⟩], err := false } := by decide
+
+/-- **writer_session_roundtrip** (`writer_reader_roundtrip` for any interleaving of write calls).  Over any
+    implementation `L` of the savefile calls that satisfies the stated facts about libpcap (`SavefileFacts`): a
+    `PacketWriter` of any link type of the writer's API, ANY sequence of `write(PDU&)` / `write(T&)` (wall-clock
+    stamp = the `gettimeofday` reading of that call), `write(Packet&)` (the packet's stamp),
+    `write(begin, end)` (every element, in order, each with its own clock reading), move construction and move
+    assignment of the live writer mid-file — then destruction.  The file opens with the writer's link type and its
+    frames are exactly the written serializations, in order, each with `caplen` = serialized size, `len` =
+    `advertised_size()` and its time stamp; then the file ends cleanly. -/
+theorem writer_session_roundtrip (L : Savefile) (hL : SavefileFacts L)
+    (dlt : Nat) (hdlt : ∃ e ∈ dataLinkTypes ++ writerEnum, e.2 = dlt) (calls : List WCall)
+    (hst : ∀ e ∈ calls.flatMap WCall.written, Storable e) :
+    L.openOffline (L.dump dlt writerSnaplen (WriterSt.run ⟨dlt, []⟩ calls).recs) =
+      some { dlt := dlt, snaplen := writerSnaplen, frames := (calls.flatMap WCall.written).map frameFor,
+             err := false } ∧
+    (WriterSt.run ⟨dlt, []⟩ calls).dlt = dlt := by
+  obtain ⟨e, he, rfl⟩ := hdlt
+  have hh := writer_linktypes_header e he
+  have hr := run_recs calls ⟨e.2, []⟩
+  refine ⟨?_, hr.2⟩
+  rw [hr.1, List.nil_append,
+    hL.roundtrip e.2 writerSnaplen hh.1 hh.2 writerSnaplen_pos writerSnaplen_le_max _
+      (by
+        intro r hr'
+        obtain ⟨x, hx, rfl⟩ := List.mem_map.mp hr'
+        exact recFor_wf x (hst x hx))]
+  simp only [List.map_map]
+  congr 2
+  apply List.map_congr_left
+  intro x hx
+  exact frameOfRec_recFor x (hst x hx)
+
+/-- ... in particular for the byte-level model of the savefile format, whose `dump` is what the harness compares
+    with the bytes `pcap_dump` wrote -/
+theorem writer_session_roundtrip_model (dlt : Nat) (hdlt : ∃ e ∈ dataLinkTypes ++ writerEnum, e.2 = dlt)
+    (calls : List WCall) (hst : ∀ e ∈ calls.flatMap WCall.written, Storable e) :
+    openFile (WriterSt.run ⟨dlt, []⟩ calls).close =
+      some { dlt := dlt, snaplen := writerSnaplen, frames := (calls.flatMap WCall.written).map frameFor,
+             err := false } := by
+  have h := writer_session_roundtrip modelSavefile modelSavefile_facts dlt hdlt calls hst
+  simpa [WriterSt.close, modelSavefile, h.2] using h.1
+
+/-- the frame read back for a `write(Packet&)` carries the packet's time stamp (every stamp the format can hold) -/
+theorem packet_stamp_roundtrip (ts : Timestamp) (x : Item) (hsec : ts.seconds < 2147483648) :
+    (frameFor (ts.toTimeval, x)).ts = ts ∧ Storable (ts.toTimeval, x) ↔ x.ser.length ≤ writerSnaplen := by
+  have hus : ts.microseconds < 1000000 := by unfold Timestamp.microseconds; omega
+  have hts : (frameFor (ts.toTimeval, x)).ts = ts := by
+    have := frame_ts ⟨ts, x.ser, x.adv⟩ (by unfold Timestamp.seconds at hsec; simp only; omega)
+    simpa [Written.frame, frameFor, Frame.ts, Timestamp.toTimeval] using this
+  constructor
+  · intro h; exact h.2.2.2.2.2
+  · intro h
+    refine ⟨hts, ?_, ?_, ?_, ?_, h⟩ <;> simp only [Timestamp.toTimeval] <;> omega
+
+/-- the hypotheses of `writer_session_roundtrip` are met by the calls of the example below -/
+example : ∀ e ∈ ([.packet ⟨1700000000000001⟩ ⟨[1, 2, 3], 3⟩, .range [(⟨5, 6⟩, ⟨[], 0⟩), (⟨7, 8⟩, ⟨[9], 1500⟩)],
+    .moveConstruct, .pdu ⟨2147483647, 999999⟩ ⟨[4], 1⟩] : List WCall).flatMap WCall.written,
+    0 ≤ e.1.sec ∧ e.1.sec < 2147483648 ∧ 0 ≤ e.1.usec ∧ e.1.usec < 2147483648 ∧ e.2.ser.length ≤ writerSnaplen := by
+  decide
+example : (∃ e ∈ dataLinkTypes ++ writerEnum, e.2 = 12) := by decide
+
+example : openFile (WriterSt.run ⟨12, []⟩
+    [.packet ⟨1700000000000001⟩ ⟨[1, 2, 3], 3⟩, .range [(⟨5, 6⟩, ⟨[], 0⟩), (⟨7, 8⟩, ⟨[9], 1500⟩)], .moveConstruct,
+     .pdu ⟨2147483647, 999999⟩ ⟨[4], 1⟩, .moveAssignInto (some ⟨12, []⟩), .range []]).close =
+    some { dlt := 12, snaplen := writerSnaplen,
+           frames := [⟨⟨1700000000, 1⟩, 3, 3, [1, 2, 3]⟩, ⟨⟨5, 6⟩, 0, 0, []⟩, ⟨⟨7, 8⟩, 1, 1500, [9]⟩,
+                      ⟨⟨2147483647, 999999⟩, 1, 1, [4]⟩], err := false } := by decide
 
 /-- **capture_roundtrip.**  Write packets with `PacketWriter`, read the file with a `FileSniffer` in
     `extract_raw_pdus` mode through any sniffing method: the same number of packets comes back, in order, each
